@@ -11,6 +11,7 @@ RULE = ('cases = (function, record, dt, fractions or threshold, se in {T,F}); re
         'overshoots the final value / oscillates through the band / ends at or below zero: start and end are the first and last in-band samples whatever the shape); a case is skipped as fragile (counted) when a float threshold product decides a comparison differently from exact arithmetic; '
         'calc_sig_dur also called with im and se POSITIONALLY in the documented order (asig, start, end, im, se), result kind checked (pair of numbers / one number); '
         'calc_sig_dur_vals also on ordinary float records (8..160 samples, not dyadic, with and without a zero tail) with the upper fraction exactly 1.0, the model summing the squares exactly; compared where the binary64 running sum and the exact one decide every comparison alike (else fragile); '
+        'calc_brac_dur also on an AccSignal that was queried (calc_brac_dur / .time) while holding the first m samples and then re-loaded by reset_values() with the full, LONGER record whose first / last exceedance lies beyond index m; '
         'non-trivial = some sample qualifies, or the empty-result branch is exercised on a non-zero record')
 TRUSTED = [
     'Coq 8.16.1 kernel + vm_compute',
@@ -270,6 +271,39 @@ def run(rep, rng, tier):
         n_sumdiff += int(float(np.sum(a ** 2)) != float(cumf[-1]))
         emit(2, 'calc_sig_dur_vals[float record, end=1.0]', dt, lo, hi, 0, a, r_se, r_d, 1e-12 * len(a) * dt,
              {'motion': list(map(float, a)), 'dt': dt, 'start': lo, 'end': hi}, True)
+    # --- bracketed duration on an object that is RE-LOADED WITH A LONGER RECORD: the object first holds the first m samples and is
+    # queried (calc_brac_dur, or its time axis is read), reset_values() then installs the full record, whose first / last sample
+    # above the threshold lies at an index beyond the old length
+    NL = 12 if tier == 'quick' else 120
+    for k in range(NL):
+        n = gens.small_len(rng, 6, 150)
+        a, style = gens.int_record(rng, n, amp=rng.choice([3, 10, 30]))
+        a = np.array(a, dtype=float)
+        m = rng.randint(2, max(2, n // 2))
+        if k % 3 == 0:
+            a[:m + rng.randint(0, (n - m) // 2)] = 0.0           # the first exceedance lies beyond the old length too
+        if not np.any(a[m:] != 0):
+            a[rng.randint(m, n - 1)] = float(rng.randint(1, 9))
+        a = a * 2.0 ** (-rng.choice([0, 0, 1, 3, 8, 20]))
+        dyadic = rng.random() < 0.7
+        dt = gens.dyadic_dt(rng, 1, 8) if dyadic else rng.choice([0.01, 0.005, 0.02])
+        tol = 0 if dyadic else 1e-12 * len(a) * dt
+        tail_mags = sorted(set(np.abs(a[m:])))
+        thr = rng.choice([0.0, tail_mags[-1] / 2, tail_mags[max(0, len(tail_mags) - 2)] if len(tail_mags) > 1 else 0.0, tail_mags[(len(tail_mags) - 1) // 2] / 2 + tail_mags[0] / 2])
+        asig = eqsig.AccSignal(a[:m] + 1.0, dt)
+        if k % 2 == 0:
+            _ = guarded(eqsig.im.calc_brac_dur, asig, 0.0, se=True)
+            first = 'calc_brac_dur'
+        else:
+            _ = np.array(asig.time)
+            first = '.time'
+        asig.reset_values(a.copy())
+        a = np.array(asig.values, dtype=float)
+        r_se = core.guarded_pure(eqsig.im.calc_brac_dur, asig, thr, se=True)
+        r_d = core.guarded_pure(eqsig.im.calc_brac_dur, asig, thr, se=False)
+        emit(1, 'calc_brac_dur[%s; reset_values(longer record); query]' % first, dt, 0, 0, thr, a, r_se, r_d, tol,
+             {'values': list(a), 'dt': dt, 'threshold': thr, 'history': 'AccSignal(values[:%d] + 1.0, dt); %s; reset_values(values); calc_brac_dur(asig, threshold)' % (m, first)},
+             bool(np.any(np.abs(a[m:]) > thr)))
     rep.extra['float_end1_cases'] = n_float
     rep.extra['float_end1_cases_pairwise_total_differs'] = n_sumdiff
     rep.extra['fragile_skipped'] = fragile
